@@ -29,13 +29,13 @@ func TestVerifC03Dev(t *testing.T) {
 	if err != nil {
 		t.Fatal(err)
 	}
-	pkgs := c03Pack(snips, 200, "p")
+	pkgs := c03PackByFam(snips, 200, "p")
 	api := c03APISnippets(os.Getenv("C03_DEV_QUICK") == "")
 	for _, s := range api {
 		fam[s.Fam]++
 	}
 	t.Logf("api snippets: %d %v", len(api), fam)
-	pkgs = append(pkgs, c03Pack(api, 200, "q")...)
+	pkgs = append(pkgs, c03PackByFam(api, 200, "q")...)
 	kinds := map[string]bool{}
 	bad := 0
 	for _, p := range pkgs {
